@@ -31,6 +31,8 @@ def apply_patch(wt, patch):
 def run_one(sid):
     d = os.path.join(ROOT, 'seeded', sid)
     meta = json.load(open(os.path.join(d, 'meta.json')))
+    if meta.get('superseded'):
+        return sid, meta.get('checks', [])
     props = [meta['breaks_property']] + [p for p in meta.get('also_run', []) if p != meta['breaks_property']]
     WT = '/tmp/verif-rs-%s-%d' % (sid, os.getpid())
     sh('git -C /repo worktree remove --force %s' % WT)
@@ -82,6 +84,9 @@ def main():
         m = json.load(open(p))
         sid = m['seed_id']
         need = m.get('summary') or ''
+        if m.get('superseded'):
+            rows.append((sid, m['breaks_property'], need, '(not applicable to the current tree)', 'SUPERSEDED', m['superseded'][:160], 0))
+            continue
         for c in m.get('checks', []):
             rows.append((sid, m['breaks_property'], need, c['check'], c['status'], c.get('signature', ''), c.get('wall_s', 0)))
     with open(os.path.join(ROOT, 'seeded', 'RESULTS.md'), 'w') as f:
@@ -91,8 +96,9 @@ def main():
         f.write('| seed | breaks | what it needs to manifest | check | result | signature | s |\n|---|---|---|---|---|---|---|\n')
         for r in rows:
             f.write('| %s | %s | %s | `%s` | **%s** | %s | %s |\n' % (r[0], r[1], r[2].replace('|', '/').replace('\n', ' '), r[3], r[4], r[5].replace('|', '/'), r[6]))
-        det = sum(1 for r in rows if r[4] == 'DETECTED' and r[3].split()[1] == r[1])
-        own = sum(1 for r in rows if r[3].split()[1] == r[1])
+        live = [r for r in rows if r[4] != 'SUPERSEDED']
+        det = sum(1 for r in live if r[4] == 'DETECTED' and r[3].split()[1] == r[1])
+        own = sum(1 for r in live if r[3].split()[1] == r[1])
         f.write('\nOwn-property checks: %d of %d seeds detected by the quick tier.\n' % (det, own))
     return 0
 
